@@ -10,8 +10,9 @@
 //!       reply = the formula text after each edit.
 //!   c08 dn <wb|ws> <nsheet> <address> <edits> <expected,..> - <tags>
 //!       the same for a defined name stored on sheet <nsheet> (`DefinedName::get_address`).
-//! `expected` is computed by the independent shifter of `fx.rs` on the generator's AST; `alt` is what
-//! the listed known defects would produce (`-` when the same).  The model ignores them.
+//! `expected` is computed by the independent shifter of `fx.rs` on the generator's AST; the `alt` column
+//! (what a listed known defect would produce) is no longer used: it is always `-` (corpus lines written
+//! before fix C08-insert-grid-overflow may still carry one; it is ignored).  The model ignores both.
 use crate::common::*;
 use crate::fx::*;
 
@@ -130,7 +131,6 @@ pub fn exec(out: &mut Out, line: &str) -> (String, bool) {
     let src = s(a[4]);
     let edits = parse_edits(a[5]);
     let expected: Vec<String> = if a[6] == "-" { vec![] } else { a[6].split(',').map(s).collect() };
-    let alts: Vec<String> = if a[7] == "-" { vec![] } else { a[7].split(',').map(s).collect() };
     let tags = a[8];
     match a[1] {
         "hist" => {
@@ -168,9 +168,8 @@ pub fn exec(out: &mut Out, line: &str) -> (String, bool) {
                     match &got[k] {
                         Ok(g) if *g == expected[k] => {}
                         Ok(g) => {
-                            let class = if !alts.is_empty() && *g == alts[k] { "shift-known-rewrite" } else { "shift-mismatch" };
                             verdict = Some(
-                                Fail::new(class)
+                                Fail::new("shift-mismatch")
                                     .with("situation", &sit)
                                     .with("step", k.to_string())
                                     .with("edit", edit_txt(&edits[k]))
@@ -301,11 +300,10 @@ fn gen_edit(rng: &mut Rng, boundary: bool) -> EditOp {
     EditOp { insert, axis, at, n: rng.range(1, 4) as u32, sheet: rng.below(3) as usize }
 }
 
-/// independent shifter for one edit; `bounded = false` reproduces the known defect that an insert
-/// may push a reference beyond the grid instead of cutting it off / yielding #REF!
-fn shift(e: &E, fsheet: usize, ed: &EditOp, bounded: bool) -> E {
+/// independent shifter for one edit
+fn shift(e: &E, fsheet: usize, ed: &EditOp) -> E {
     if ed.insert {
-        shift_insert(e, SHEETS[fsheet], SHEETS[ed.sheet], ed.axis, ed.at, ed.n, bounded)
+        shift_insert(e, SHEETS[fsheet], SHEETS[ed.sheet], ed.axis, ed.at, ed.n)
     } else {
         shift_remove(e, SHEETS[fsheet], SHEETS[ed.sheet], ed.axis, ed.at, ed.n)
     }
@@ -349,25 +347,20 @@ pub fn gen(tier: Tier, seed: u64) -> Vec<String> {
         let boundary = !small;
         let edits: Vec<EditOp> = (0..4).map(|_| gen_edit(&mut rng, boundary)).collect();
         let mut e = e0.clone(); // the property's semantics
-        let mut ed_ = e0.clone(); // the semantics with the known defects
         let mut exp = vec![];
-        let mut alt = vec![];
-        let mut defects: Vec<&str> = vec![];
+        let mut pushed_off = false;
         for ed in &edits {
-            e = shift(&e, fsheet, ed, true);
-            ed_ = shift(&ed_, fsheet, ed, false);
-            let x = print(&e, false);
-            let y = print(&ed_, true);
-            if x != y {
-                if ed_ != e && !defects.contains(&"grid-overflow") {
-                    defects.push("grid-overflow");
-                }
-            }
-            exp.push(hex(&x));
-            alt.push(hex(&y));
+            // an insert at or in front of the highest referenced line that pushes it beyond the grid
+            let mut f = Feat::default();
+            features(&e, &mut f, 1);
+            let (hi, max) = if ed.axis == Axis::Row { (f.max_row, 1_048_576u32) } else { (f.max_col, 16_384u32) };
+            pushed_off |= ed.insert && f.refs > 0 && hi >= ed.at && hi as u64 + ed.n as u64 > max as u64;
+            e = shift(&e, fsheet, ed);
+            exp.push(hex(&print(&e, false)));
         }
-        let any_alt = !defects.is_empty();
-        let tags = if any_alt { format!("{}+known:{}", tags, defects.join("+")) } else { tags };
+        // (no `alt` column any more: no known defect rewrites a formula; a recurrence of the
+        // out-of-grid shift is a plain shift-mismatch)
+        let tags = if pushed_off { format!("{}+grid-limit", tags) } else { tags };
         let level = if rng.chance(1, 6) { "lz" } else if rng.chance(1, 2) { "wb" } else { "ws" };
         v.push(format!(
             "c08 hist {} {} {} {} {} {} {}",
@@ -376,7 +369,7 @@ pub fn gen(tier: Tier, seed: u64) -> Vec<String> {
             hex(&src),
             edits.iter().map(edit_txt).collect::<Vec<_>>().join(";"),
             exp.join(","),
-            if any_alt { alt.join(",") } else { "-".into() },
+            "-",
             tags
         ));
     }
@@ -399,7 +392,7 @@ pub fn gen(tier: Tier, seed: u64) -> Vec<String> {
         let mut exp = vec![];
         for ed in &edits {
             // a defined name is not "on" a sheet for the purpose of unqualified references: always qualified
-            e = shift(&e, nsheet, ed, true);
+            e = shift(&e, nsheet, ed);
             exp.push(hex(&print(&e, false)));
         }
         let level = if rng.chance(1, 2) { "wb" } else { "ws" };
